@@ -8,7 +8,7 @@ import (
 )
 
 func init() {
-	register("C04", "The serve loop is the only reader and strictly sequential, so the behaviour for every packet sequence is the composition of per-packet-kind effects plus the semantics of one Go map. Decided, per arm of the dispatch in serve and on every path of the arm: R-C04-1 QoS0 PUBLISH: the parsed message is handed to the handler exactly once (if one is registered), nothing is written or stored; R-C04-2 QoS1: hand-over once, then exactly one PUBACK carrying the parsed id, never before the hand-over; R-C04-3 QoS2: exactly one PUBREC with the parsed id and the message stored under that id, no hand-over; R-C04-4 PUBREL: a hit in the hold buffer hands over exactly the stored message once, deletes the entry within the arm and writes one PUBCOMP with the PUBREL's id; a miss hands over nothing; R-C04-5 the sub-arm is selected by the QoS parsed from this packet; R-C04-6 the hold buffer is a local of serve that does not escape, serve runs only in the reader goroutine and is the only reader of the transport; R-C04-7 the handler is read per message; R-C04-8 the minimum-length guards of the inbound parsers are exact (a well-formed minimal packet is not rejected). Not decided: payload/topic content (C05); QoS 2 state across connections.", checkC04)
+	register("C04", "The serve loop is the only reader and strictly sequential, so the behaviour for every packet sequence is the composition of per-packet-kind effects plus the semantics of one Go map. Decided, per arm of the dispatch in serve and on every path of the arm: R-C04-1 QoS0 PUBLISH: the parsed message is handed to the handler exactly once (if one is registered), nothing is written or stored; R-C04-2 QoS1: hand-over once, then exactly one PUBACK carrying the parsed id, never before the hand-over; R-C04-3 QoS2: exactly one PUBREC with the parsed id and the message stored under that id, no hand-over; R-C04-4 PUBREL: a hit in the hold buffer hands over exactly the stored message once, deletes the entry within the arm and writes one PUBCOMP with the PUBREL's id; a miss hands over nothing; R-C04-5 the sub-arm is selected by the QoS parsed from this packet; R-C04-6 the hold buffer is a local of serve that does not escape, serve runs only in the reader goroutine and is the only reader of the transport; R-C04-7 the handler is read per message; R-C04-8 the minimum-length guards of the inbound parsers are exact (a well-formed minimal packet is not rejected); R-C04-9 the Message a PUBLISH is parsed into is a fresh object per packet, so a message held for its PUBREL cannot be overwritten by the next PUBLISH. Not decided: payload/topic content (C05); QoS 2 state across connections.", checkC04)
 }
 
 type serveEffects struct {
